@@ -278,6 +278,10 @@ func (s *stack) push(p *Path) {
 		parent.Next = p
 		p.Parent = parent
 	}
+	if s.count == len(s.steps) {
+		// deeper than the initial capacity: grow instead of indexing out of range
+		s.steps = append(s.steps, nil)
+	}
 	s.steps[s.count] = p
 	s.count++
 }
